@@ -101,6 +101,9 @@ RetViol(e) ==
                  ELSE IF x.outcome = "agrees"
                  THEN Check(x.vprop, "succeeds-where-specification-has-a-result", ~e.err)
                       \cup (IF e.err THEN {} ELSE Check(x.vprop, "decoded-response-equals-specification", Has(e, "value") /\ Agrees(e.value, x.value)))
+                 ELSE IF x.outcome = "equals"
+                 THEN Check(x.vprop, "succeeds-where-specification-has-a-result", ~e.err)
+                      \cup (IF e.err THEN {} ELSE Check(x.vprop, "decoded-response-equals-specification", Has(e, "value") /\ e.value = x.value))
                  ELSE IF x.outcome = "noerror" THEN Check(x.prop, "succeeds-where-specification-has-a-result", ~e.err)
                  ELSE IF x.outcome = "float"
                  THEN Check(x.prop, "succeeds-where-specification-has-a-result", ~e.err)
